@@ -32,6 +32,8 @@ EXC = {
     "OSError_EAGAIN": lambda: OSError(errno.EAGAIN, "Resource temporarily unavailable"),
     "InterruptedError": lambda: InterruptedError(errno.EINTR, "Interrupted system call"),
     "BrokenPipeError": lambda: BrokenPipeError(errno.EPIPE, "Broken pipe"),
+    # pyserial wraps the OS error and keeps its number: "device or resource busy"
+    "SerialException_EBUSY": lambda: serial.SerialException(errno.EBUSY, "could not open port: busy"),
 }
 
 
@@ -71,6 +73,12 @@ def mutate_line(kind, line, req_name):
         return req_name[0] + ("X" if req_name[1] not in ("X", "x") else "Y") + ",0"
     if kind == "cut":                   # a reply cut short after its first character
         return req_name[0] if len(req_name) > 1 else "ZZ,0"
+    if kind == "longerr":               # EBB3 style error whose text comes after a long echo
+        return req_name + "," + ",".join(["1234567890"] * 8) + ",Err: 8 parameter outside limit"
+    if kind == "spacepay":              # conforming: the payload begins with a blank
+        return req_name + ", 7 8"
+    if kind == "tabpay":                # conforming: the payload begins with a tab
+        return req_name + ",\tB2"
     if kind == "garbage":
         return "\x7f??"
     if kind == "bare":                  # conforming: name only, no payload
